@@ -1,0 +1,66 @@
+//go:build verif
+
+/*
+ * Licensed to the Apache Software Foundation (ASF) under one or more
+ * contributor license agreements.  See the NOTICE file distributed with
+ * this work for additional information regarding copyright ownership.
+ * The ASF licenses this file to You under the Apache License, Version 2.0
+ * (the "License"); you may not use this file except in compliance with
+ * the License.  You may obtain a copy of the License at
+ *
+ *     http://www.apache.org/licenses/LICENSE-2.0
+ *
+ * Unless required by applicable law or agreed to in writing, software
+ * distributed under the License is distributed on an "AS IS" BASIS,
+ * WITHOUT WARRANTIES OR CONDITIONS OF ANY KIND, either express or implied.
+ * See the License for the specific language governing permissions and
+ * limitations under the License.
+ */
+
+package rm
+
+// Verification contracts (comment-only, tag verif) for the resource-manager registry and the
+// ResourceManager interface as seen by the phase-two processors (C15).
+
+// Ghost record of the last BranchCommit/BranchRollback call made on a resource manager.
+//@ ghost var rmcalls int
+//@ ghost var rm_self any
+//@ ghost var rm_kind int
+//@ ghost var rm_type int
+//@ ghost var rm_xid string
+//@ ghost var rm_branch int
+//@ ghost var rm_resource string
+//@ ghost var rm_data string
+//@ ghost var rm_status int
+//@ ghost var rm_err_nil bool
+
+// Lazily initialised singleton behind sync.Once: trusted (body not verified).
+//@ func GetRmCacheInstance
+//@   trusted
+//@   ensures result != nil && result == rmCacheInstance
+
+//@ func (*ResourceManagerCache).GetResourceManager
+//@   prop C15
+//@   requires d != nil
+//@   ensures lookup: result == syncmap(d, "resourceManagerMap")[box(branchType, branch.BranchType)]
+//@   may_panic
+
+//@ func (*ResourceManagerCache).RegisterResourceManager
+//@   prop C15
+//@   requires d != nil && resourceManager != nil
+//@   ensures stored: syncmap(d, "resourceManagerMap")[box(ufi("rm.branchtype", resourceManager), branch.BranchType)] == resourceManager
+
+//@ iface (rm.ResourceManager).GetBranchType
+//@   ensures result == ufi("rm.branchtype", self)
+
+// Environment: a resource manager may return any status and any error; the call is recorded.
+//@ iface (rm.ResourceManager).BranchCommit
+//@   modifies ghost.rmcalls, ghost.rm_self, ghost.rm_kind, ghost.rm_type, ghost.rm_xid, ghost.rm_branch, ghost.rm_resource, ghost.rm_data, ghost.rm_status, ghost.rm_err_nil
+//@   ensures ghost.rmcalls == old(ghost.rmcalls) + 1 && ghost.rm_self == self && ghost.rm_kind == 1
+//@   ensures ghost.rm_type == resource.BranchType && ghost.rm_xid == resource.Xid && ghost.rm_branch == resource.BranchId && ghost.rm_resource == resource.ResourceId && ghost.rm_data == resource.ApplicationData
+//@   ensures ghost.rm_status == result0 && ghost.rm_err_nil == (result1 == nil)
+//@ iface (rm.ResourceManager).BranchRollback
+//@   modifies ghost.rmcalls, ghost.rm_self, ghost.rm_kind, ghost.rm_type, ghost.rm_xid, ghost.rm_branch, ghost.rm_resource, ghost.rm_data, ghost.rm_status, ghost.rm_err_nil
+//@   ensures ghost.rmcalls == old(ghost.rmcalls) + 1 && ghost.rm_self == self && ghost.rm_kind == 2
+//@   ensures ghost.rm_type == resource.BranchType && ghost.rm_xid == resource.Xid && ghost.rm_branch == resource.BranchId && ghost.rm_resource == resource.ResourceId && ghost.rm_data == resource.ApplicationData
+//@   ensures ghost.rm_status == result0 && ghost.rm_err_nil == (result1 == nil)
